@@ -24,8 +24,9 @@ TraceLog == ndJsonDeserialize("trace.ndjson")
 Ev == TraceLog[l]
 TInit == l = 1 /\ result = << >> /\ seen = << >>
 Key(id, off) == <<id, off>>
+Deviant == Ev.esccut /\ "KF-C05-1" \in Open       \* a run the open finding may affect: compared, never recorded
 Run ==
-  /\ l <= Len(TraceLog) /\ Ev.ev = "run"
+  /\ l <= Len(TraceLog) /\ Ev.ev = "run" /\ ~Deviant
   /\ LET r == [line |-> Ev.line, err |-> Ev.err] IN
      /\ (Ev.id \in DOMAIN result) => result[Ev.id] = r
      /\ result' = IF Ev.id \in DOMAIN result THEN result ELSE (Ev.id :> r) @@ result
@@ -41,13 +42,15 @@ Agrees == /\ (Ev.id \in DOMAIN result) => result[Ev.id] = [line |-> Ev.line, err
           /\ \A i \in 1..Len(Ev.waits) :
                 LET w == Ev.waits[i] IN
                 (Key(Ev.id, w.off) \in DOMAIN seen) => seen[Key(Ev.id, w.off)] = [line |-> w.line, cur |-> w.cur]
+RunDeviantAgrees ==
+  /\ l <= Len(TraceLog) /\ Ev.ev = "run" /\ Deviant /\ Agrees
+  /\ l' = l + 1 /\ UNCHANGED <<result, seen>>
 Dev_EmacsLoneEsc ==
-  /\ "KF-C05-1" \in Open
-  /\ l <= Len(TraceLog) /\ Ev.ev = "run" /\ Ev.esccut /\ ~Agrees
+  /\ l <= Len(TraceLog) /\ Ev.ev = "run" /\ Deviant /\ ~Agrees
   /\ PrintT(<<"DEV", "KF-C05-1", l>>)
   /\ l' = l + 1 /\ UNCHANGED <<result, seen>>
 \* a new script family: forget the previous ones (keeps the state small)
 Flush == /\ l <= Len(TraceLog) /\ Ev.ev = "flush" /\ result' = << >> /\ seen' = << >> /\ l' = l + 1
-TraceSpec == TInit /\ [][Run \/ Flush \/ Dev_EmacsLoneEsc]_<<l, result, seen>>
+TraceSpec == TInit /\ [][Run \/ Flush \/ RunDeviantAgrees \/ Dev_EmacsLoneEsc]_<<l, result, seen>>
 Accepted == TLCGet("stats").diameter - 1 = Len(TraceLog)
 =============================================================================
